@@ -180,6 +180,9 @@ func (z *zmodemTransfer) handleZmodemError(msg string) {
 	if cmd := z.cmd.Load(); cmd != nil {
 		_ = writeAll(z.stdin, zmodemCancelFullSequence)
 		z.ensureClientExit(cmd)
+	} else {
+		// no helper whose exit would arm it: hand the terminal back after the usual quiet period
+		z.resetCleanupTimer()
 	}
 
 	z.writeMessage(msg)
